@@ -13,12 +13,13 @@ such cases (counted in distribution.filtered_D25); the witness
 corpus/C16/finding_D25.json is replayed through the (P) oracle on every run."""
 import os, json, glob, itertools
 import fw
-from fw import cnat, clist, ctuple, Outcome
+from fw import cnat, cz, clist, ctuple, Outcome
 
 EXTRA_MODS = ["Plan.Tie"]
 TRUSTED = ["networkx.topological_sort is not modelled: the order it returned is read off the calc actions, "
            "checked (check_order, in Coq) to be a topological permutation of the traced nodes and given to the model as input",
-           "values are not carried by Plan/Model.v; value equality with direct evaluation is checked on the implementation (P) only"]
+           "values: Plan/Values.v (same executor with a value next to every flag; formulas = arbitrary functions of the "
+           "values of the calls); its flag part is proved equal to Plan/Model.v, its values are compared with the implementation"]
 ASSUMPTIONS = ["cells are cached and every formula calls all its precedents unconditionally (static dependency DAG)",
                "no element the targets depend on holds a calculated value when generate_actions is called (D25)"]
 
@@ -100,6 +101,7 @@ def make_case(rng, n, shape, targets=None, step=None, allow_inputs=True):
     if allow_inputs and rng.random() < 0.35:
         for e in rng.sample(range(n), rng.randint(1, min(3, n))):
             inputs.append([e, 1000 * (e + 1) + rng.randint(0, 99)])
+    inp = {e for e, _ in inputs}
     if targets is None:
         r = rng.random()
         if r < 0.5:
@@ -108,11 +110,24 @@ def make_case(rng, n, shape, targets=None, step=None, allow_inputs=True):
             k = rng.randint(2, min(4, n))
         else:
             k = rng.randint(1, n)
-        targets = rng.sample(range(n), k)
+        # prefer targets with many precedents (weight = size of the dependency closure)
+        w = [1 + 3 * len(closure_up(preds, [e], inp)) for e in range(n)]
+        targets = []
+        while len(targets) < k:
+            t = rng.choices(range(n), weights=w)[0]
+            if t not in targets:
+                targets.append(t)
         if rng.random() < 0.05:
             targets = targets + [targets[0]]      # a repeated target
     if step is None:
-        step = rng.randint(1, n + 2)
+        d = max(1, len(closure_up(preds, targets, inp)))
+        r = rng.random()
+        if r < 0.55:
+            step = rng.randint(1, max(1, d // 2))
+        elif r < 0.8:
+            step = rng.randint(max(1, d // 2), d)
+        else:
+            step = rng.randint(d, n + 2)
     case = {"cells": cells, "elems": elems, "inputs": inputs, "precalc": [], "targets": list(targets),
             "step": step, "shape": shape}
     return case
@@ -123,16 +138,15 @@ def add_precalc(rng, case, stats):
     n = len(case["elems"])
     preds = {i: e["preds"] for i, e in enumerate(case["elems"])}
     inp = {e for e, _ in case["inputs"]}
-    pc = [e for e in rng.sample(range(n), rng.randint(1, min(3, n))) if e not in inp]
     dep = closure_up(preds, case["targets"], inp)
-    pcc = closure_up(preds, pc, inp)
-    if not pc:
-        return
-    if dep & pcc:
-        stats["filtered_D25"] += 1
-        return
-    case["precalc"] = pc
-    stats["with_unrelated_precalc"] += 1
+    pc = [e for e in rng.sample(range(n), rng.randint(1, min(3, n))) if e not in inp]
+    if pc and dep & closure_up(preds, pc, inp):
+        stats["filtered_D25"] += 1          # the D25 trigger: dropped, replaced by an unrelated choice if there is one
+        cand = [e for e in range(n) if e not in inp and not (dep & closure_up(preds, [e], inp))]
+        pc = rng.sample(cand, min(len(cand), rng.randint(1, 2))) if cand else []
+    if pc:
+        case["precalc"] = pc
+        stats["with_unrelated_precalc"] += 1
 
 
 SHAPES = ["chain", "tree", "fan", "layers", "sparse", "dense"]
@@ -154,11 +168,11 @@ def gen_cases(rng, tier, stats):
                         c["kind"] = "exhaustive"
                         cases.append(c)
     stats["exhaustive_small"] = len(cases)
-    nrand = 220 if tier == "quick" else 4000
+    nrand = 600 if tier == "quick" else 6000
     for _ in range(nrand):
         n = rng.choice([3, 4, 5, 6, 7, 8, 9, 10, 12, 14, 16, 18, 20, 22, 25])
         c = make_case(rng, n, rng.choice(SHAPES))
-        if rng.random() < 0.15:
+        if rng.random() < 0.2:
             add_precalc(rng, c, stats)
         c["kind"] = "random"
         cases.append(c)
@@ -267,6 +281,19 @@ def coq_term(case, r):
     return ctuple([g, codes, lnat(case["targets"]), cnat(case["step"]), obs])
 
 
+def coq_vterm(case, r):
+    """the valued executor on the implementation's own actions: final values and direct values"""
+    def cv(x):
+        return ctuple([cnat(CODE[None if x is None else x[0]]), cz(0 if x is None else x[1])])
+    g = clist([ctuple([cnat(i), lnat(e["preds"])]) for i, e in enumerate(case["elems"])])
+    init = clist([ctuple([cnat(i), cv(x)]) for i, x in enumerate(r["before"]["elems"]) if x is not None])
+    bases = clist([ctuple([cnat(i), cz(e["base"])]) for i, e in enumerate(case["elems"])])
+    acts = clist([ctuple([cnat(KIND[k]), lnat(ns)]) for k, ns in r["actions"]])
+    final = clist([cv(x) for x in r["final"]["elems"]])
+    direct = clist([ctuple([cnat(t), cz(v)]) for t, v in r["direct"]])
+    return ctuple([g, init, bases, acts, final, direct])
+
+
 CASE_TYPE = "tie_case"
 REQ = ["Plan.Model", "Plan.Tie"]
 
@@ -315,6 +342,12 @@ def run(tier, seed, rng):
     idx = [i for i, r in enumerate(res) if not r.get("err")]
     terms = [coq_term(cases[i], res[i]) for i in idx]
     badidx = fw.run_coq_cases("C16", REQ, CASE_TYPE, "tie_check", terms, shard=120)
+    vterms = [coq_vterm(cases[i], res[i]) for i in idx]
+    vbad = fw.run_coq_cases("C16v", REQ + ["Plan.Values"], "vtie_case", "vtie_check", vterms, shard=120)
+    for j in vbad[:20]:
+        if j not in badidx:
+            out.tie_mismatches.append({"case": cases[idx[j]], "impl": res[idx[j]],
+                                       "detail": "Plan/Values.v and the implementation disagree on the values (final cache or direct evaluation)"})
     for j in badidx[:20]:
         i = idx[j]
         tm = {"case": cases[i], "impl": res[i],
@@ -324,7 +357,7 @@ def run(tier, seed, rng):
         out.tie_mismatches.append(tm)
     nerr = sum(1 for r in res if r.get("err"))
     out.evaluations = len(cases)
-    out.traces_validated = len(idx) - len(badidx)
+    out.traces_validated = len(idx) - len(set(badidx) | set(vbad))
     out.distinct_nontrivial = len({canon(c) for c, r in zip(cases, res) if nontrivial(c, r)})
     out.samples = [{k: c[k] for k in ("cells", "elems", "inputs", "precalc", "targets", "step")} for c in cases[:1] + cases[-2:]]
     # ---- witnesses of recorded defects
